@@ -208,6 +208,43 @@ def gen_random(chk, i):
     return cfg, word
 
 
+def gen_crowd(chk, i):
+    """Three or four threads taking turns on one physical CPU (pausing, cooling,
+    warming in between); the history ends with an event that would make two of
+    them run at once.  Returns (cfg, legal prefix, offending symbol) or None."""
+    rng = chk.rng(i, "crowd")
+    nth = rng.randint(3, 4)
+    cfg = [0] * nth
+    desc = make_desc(cfg)
+    word = []
+    for n in range(rng.randint(3, 18)):
+        ti = rng.randrange(nth)
+        sys_ = model_run(desc, cfg, word)[1]
+        th = sys_.thread(("L0", 7, 100 + ti))
+        legal = [a for a in "xprcwe" if not (th.state == refemu.DEAD and a == "x")
+                 and model_run(desc, cfg, word + [(ti, a)])[0] is None]
+        if legal:
+            word.append((ti, rng.choice(legal)))
+    cands = []
+    for ti in range(nth):
+        for a in "xr":
+            bad, _, _, why = model_run(desc, cfg, word + [(ti, a)])
+            if bad is not None and why and "oversubscri" in why.lower():
+                cands.append((ti, a))
+    if not cands:
+        return None
+    return cfg, word, rng.choice(cands)
+
+
+def run_crowd_case(i):
+    chk = _CTX["chk"]
+    g = gen_crowd(chk, i)
+    if g is None:
+        return None, []
+    cfg, prefix, sym = g
+    return run_closure_case((cfg, prefix, sym, False))
+
+
 def run_random_case(i):
     chk = _CTX["chk"]
     cfg, word = gen_random(chk, i)
@@ -264,6 +301,13 @@ def main(argv):
         if len(samples) < 2 and len(prefix) >= 2:
             samples.append({"cfg": cfg, "legal_prefix": ["%d:OH%s" % p for p in prefix], "next": "%d:OH%s" % sym,
                             "model_says_legal": legal})
+    ncrowd = 0
+    for case, results in core.pmap(run_crowd_case, range(500 if quick else 8000), chunksize=4):
+        if case is None:
+            continue
+        ncrowd += 1
+        words.add((tuple(case[0]), tuple(case[1]), case[2]))
+        absorb(results, "crowd")
     for (cfg, word), results in core.pmap(run_random_case, range(nrandom), chunksize=4):
         words.add((tuple(cfg), tuple(word)))
         absorb(results, "random")
@@ -273,9 +317,11 @@ def main(argv):
            "rule": "legal-prefix closure: every legal prefix (per the six-transition machine) of bounded length over "
                    "{OHx(own CPU),OHx(another CPU),OHp,OHr,OHc,OHw,OHe} x threads, extended by every possible next event, run through ovniemu "
                    "completed to Dead (and bare when not all dead); plus random histories up to length 40 on 1-3 "
-                   "threads. distinct_nontrivial = distinct (cpu configuration, history) words executed",
+                   "threads and histories of 3-4 threads taking turns on one physical CPU that end with an "
+                   "oversubscribing execute/resume. distinct_nontrivial = distinct (cpu configuration, history) words executed",
            "samples": samples, "closure_pairs": len(closure), "closure_legal_next": legal_next,
            "closure_illegal_next": illegal_next, "random_histories": nrandom,
+           "crowded_cpu_oversubscription_cases": ncrowd,
            "emulator_accepted": accepted, "emulator_rejected": rejected, "prv_lines_compared": lines,
            "exhaustive": True,
            "exhaustive_scope": "all histories of length <= %s on one thread (own CPU), <= %s on the virtual CPU, "
